@@ -101,6 +101,14 @@ def reads_for(kind):
     for fmt in fmts:
         out.append(("serialize:" + fmt, ser(fmt)))
 
+    def ser_base(fmt):
+        # a base that some IRIs of the data merely start with (no trailing slash)
+        return lambda x: ("text", x.serialize(format=fmt, base=EX + "p"))
+
+    for fmt in fmts:
+        if fmt not in ("nt", "nquads", "hext", "patch", "trix"):
+            out.append(("serialize+base:" + fmt, ser_base(fmt)))
+
     def q(text):
         return lambda x: _rows_of_result(x.query(text))
 
@@ -291,9 +299,10 @@ def run(ctx):
 
     def pairs_of(reads):
         # every ordered pair of reads; the prepared-query reads are paired with themselves and with each other only
-        plain = [n for n in reads if not n.startswith("prepared:")]
+        plain = [n for n in reads if not n.startswith(("prepared:", "serialize+base:"))]
         prep = [n for n in reads if n.startswith("prepared:")]
-        return [(a, b) for a in plain for b in plain] + [(a, b) for a in prep for b in prep]
+        based = [n for n in reads if n.startswith("serialize+base:")]
+        return [(a, b) for a in plain for b in plain] + [(a, b) for a in prep for b in prep] + [(a, b) for a in based for b in based]
 
     # datasets: every ordered pair of reads on the small universe, single reads (x2) on the larger one
     small = list(universe(2))
@@ -311,6 +320,16 @@ def run(ctx):
     for r in range(0, len(TRIPLES) + 1):
         for sub in itertools.combinations(TRIPLES, r):
             items.append((("graph", [t + (None,) for t in sub], False), pairs_of(greads)))
+    # terms that make writers hesitate about prefixes: a datatype and a predicate in namespaces without prefix, a local name ending in a dot,
+    # a predicate that merely starts with the base; every subset next to the universe triples, each read twice
+    from ..rt import I as _I, L as _L
+    EXTRA = [(_I("a"), _I("pz"), _L("A-1", dt="http://dt.example/t#code")), (_I("a"), ["I", "http://o.example/x#bar.", None, None], _I("b")),
+             (["I", "http://o.example/x#foo", None, None], _I("p"), _L("x"))]
+    for r in range(1, len(EXTRA) + 1):
+        for sub in itertools.combinations(EXTRA, r):
+            for base in ([], [TRIPLES[0]], list(TRIPLES)):
+                items.append((("graph", [t + (None,) for t in list(sub) + base], False), [(a, a) for a in greads]))
+                items.append((("dataset", [t + (None,) for t in base] + [t + (_I("g1"),) for t in sub], False), [(a, a) for a in dreads]))
     # split the heavy items
     work = []
     for state, pairs in items:
